@@ -3,10 +3,11 @@ import MirProofs.Lemmas.PyMel
 import MirProofs.Props.C04_Melody
 import MirProofs.Props.C01_Melody
 import MirProofs.Props.C09_Melody
+import MirProofs.Props.C07_Melody
 /-!
   C04 (regenerated) — the frame metrics of `mir_eval/melody.py` (`validate_voicing`, `validate`, `voicing_recall`,
   `voicing_false_alarm`, `voicing_measures`, `raw_pitch_accuracy`, `raw_chroma_accuracy`, `overall_accuracy`) and
-  `freq_to_voicing`, `constant_hop_timebase` AS TRANSLATED from the source on every run (`lean/MirGen/Melody.lean`,
+  `freq_to_voicing`, `constant_hop_timebase`, `evaluate` (its glue around the extern `to_cent_voicing`) AS TRANSLATED from the source on every run (`lean/MirGen/Melody.lean`,
   harness/translate/melody.py) equal the hand-written model `MirModel/Melody.lean`, for ALL inputs (any lengths incl. empty,
   unequal lengths -> what the code does, every tolerance).  Consequence: the melody theorems of C04 (published
   definitions), C01 (range), C09 (octave invariance of the chroma accuracy) are theorems about the code as translated;
@@ -412,6 +413,64 @@ theorem gen_freq_to_voicing_spec (fs : List Freq) :
     Mir.Gen.melody.freq_to_voicing fs none = .ok (fs.map Freq.abs, fs.map fun f => if 0 < f.sgn then 1 else 0) := by
   rw [freq_to_voicing_eq_model]
   exact (Mir.C04.Melody.freq_to_voicing_spec fs).1
+
+/-! ### `evaluate` (its glue; `to_cent_voicing` is an extern) -/
+
+/-- **`evaluate` as translated = the hand model**: `to_cent_voicing` (an extern: bound to the hand model) receives the six
+    positional arguments and the `hop` / `kind` keywords, each of the five metrics receives the four arrays in the right order
+    (the three pitch metrics also `cent_tolerance`), and the scores are stored under the five documented keys in the
+    documented order; the first exception wins -/
+theorem evaluate_eq_model (rt : List Rat) (rf : List Freq) (et : List Rat) (ef : List Freq)
+    (ev rr : Option (List Rat)) (hop : Option Rat) (kind : Option Kind) (tol : Option Rat) :
+    Mir.Gen.melody.evaluate rt rf et ef ev rr hop kind tol =
+      (Melody.evaluate rt rf et ef ev rr hop (kind.getD .linear) (tol.getD 50)).map
+        (List.map fun kv => (kv.1, Num.val kv.2)) := by
+  unfold Mir.Gen.melody.evaluate Melody.evaluate PyMel.to_cent_voicing
+  cases toCentVoicing rt rf et ef ev rr hop (kind.getD .linear) with
+  | error e => rfl
+  | ok cv =>
+    simp only [Except.map, ok_bind, voicing_recall_eq_model, voicing_false_alarm_eq_model, raw_pitch_accuracy_eq_model,
+      raw_chroma_accuracy_eq_model, overall_accuracy_eq_model, scoreAll, numOf]
+    cases voicingRecall cv.refVoicing cv.estVoicing <;> try rfl
+    cases voicingFalseAlarm cv.refVoicing cv.estVoicing <;> try rfl
+    cases rawPitchAccuracy cv.refVoicing cv.refCent cv.estVoicing cv.estCent (tol.getD 50) <;> try rfl
+    cases rawChromaAccuracy cv.refVoicing cv.refCent cv.estVoicing cv.estCent (tol.getD 50) <;> try rfl
+    cases overallAccuracy cv.refVoicing cv.refCent cv.estVoicing cv.estCent (tol.getD 50) <;> rfl
+
+/-- the documented default tolerance reaches the three pitch metrics when `cent_tolerance` is not passed, and the default
+    interpolation kind is `linear` -/
+theorem evaluate_defaults (rt : List Rat) (rf : List Freq) (et : List Rat) (ef : List Freq)
+    (ev rr : Option (List Rat)) (hop : Option Rat) :
+    Mir.Gen.melody.evaluate rt rf et ef ev rr hop =
+      Mir.Gen.melody.evaluate rt rf et ef ev rr hop (some .linear) (some 50) := by
+  rw [evaluate_eq_model, evaluate_eq_model]; rfl
+
+/-- C04 / C01 / C07 on `evaluate` as translated: whenever it returns, it returns the five documented keys in the
+    documented order, each with a FINITE score in [0, 1], and raw pitch accuracy ≤ raw chroma accuracy -/
+theorem gen_evaluate_headline {rt : List Rat} {rf : List Freq} {et : List Rat} {ef : List Freq}
+    {ev rr : Option (List Rat)} {hop : Option Rat} {kind : Option Kind} {tol : Option Rat}
+    {scores : List (String × Num)} (h : Mir.Gen.melody.evaluate rt rf et ef ev rr hop kind tol = .ok scores) :
+    ∃ vr vfa rpa rca oa : Rat, scores = [("Voicing Recall", .val vr), ("Voicing False Alarm", .val vfa),
+        ("Raw Pitch Accuracy", .val rpa), ("Raw Chroma Accuracy", .val rca), ("Overall Accuracy", .val oa)] ∧
+      rpa ≤ rca ∧ ∀ x ∈ [vr, vfa, rpa, rca, oa], 0 ≤ x ∧ x ≤ 1 := by
+  rw [evaluate_eq_model] at h
+  cases hm : Melody.evaluate rt rf et ef ev rr hop (kind.getD .linear) (tol.getD 50) with
+  | error e => rw [hm] at h; cases h
+  | ok sc =>
+    obtain ⟨vr, vfa, rpa, rca, oa, hs, hle⟩ := Mir.C07.Melody.evaluate_rpa_le_rca hm
+    have hr := Mir.C01.Melody.evaluate_range hm
+    rw [hm] at h
+    subst hs
+    injection h with h
+    refine ⟨vr, vfa, rpa, rca, oa, h.symm, hle, ?_⟩
+    intro x hx
+    simp only [List.mem_cons, List.not_mem_nil, or_false] at hx
+    rcases hx with rfl | rfl | rfl | rfl | rfl
+    · exact hr ("Voicing Recall", _) (by simp)
+    · exact hr ("Voicing False Alarm", _) (by simp)
+    · exact hr ("Raw Pitch Accuracy", _) (by simp)
+    · exact hr ("Raw Chroma Accuracy", _) (by simp)
+    · exact hr ("Overall Accuracy", _) (by simp)
 
 /-! non-vacuity: the translated definitions compute (kernel evaluation of the generated code itself) -/
 example : Mir.Gen.melody.voicing_recall [1, 1, 0, 1] [1, 0, 1, 1] = .ok (.val (2/3)) := by decide +kernel
